@@ -114,6 +114,20 @@ def h_cirq(env, spec, n, init, canary=False):
     env.check_same(b.backend_info()["statevector_order"], "lsq_first", "advertised order")
 
 
+def h_cirq_shot_sv(env, spec, n, desired):
+    """measurement-free circuit, n_shots=1 with return_statevector and save_mid_circuit_meas (or desired_meas_result=""): the
+    shot-by-shot route of the cirq target; the statevector returned is U|psi> for the SUPPLIED symbolic initial statevector"""
+    from tangelo.linq import Circuit
+    gates, params = build_gates(env, spec)
+    circ = Circuit(gates, n_qubits=n)
+    b = make_backend(env, n_shots=1)
+    psi = env.state(n, "psi", normalized=True)
+    kw = dict(desired_meas_result="") if desired else dict(save_mid_circuit_meas=True)
+    freqs, sv = b.simulate(circ, return_statevector=True, initial_statevector=as_array(env, psi), **kw)
+    exp = oracle(spec, params, n, psi)
+    env.check_vec_eq(list(sv), exp, f"n_shots=1, return_statevector, {'desired_meas_result' if desired else 'save_mid_circuit_meas'}: statevector == U|psi> after {spec}")
+
+
 def h_empty(env, n, init):
     """Backend.simulate shortcuts: empty circuit"""
     from tangelo.linq import Circuit
@@ -441,6 +455,9 @@ def shapes(tier, seed):
                              dict(n=n_, ones=ones_, shots=shots_, save_mid=sm_, measure=me_), modules=()))
     for i, sp_ in enumerate(numeric):
         out.append(Shape(f"sympy/numeric/{i}", h_sympy_numeric, dict(spec=sp_, n=2), modules=()))
+    for i_, sp_ in enumerate([[("RY", [0], []), ("CNOT", [1], [0])], [("H", [1], []), ("CRZ", [0], [1]), ("RX", [0], [])]]):
+        for des_ in (False, True):
+            out.append(Shape(f"cirq/shot-statevector/{i_}/desired={int(des_)}", h_cirq_shot_sv, dict(spec=sp_, n=2, desired=des_), modules=MODS, max_paths=16))
     for be in ("cirq", "sympy"):
         for nn in ((2,) if tier == "quick" else (2, 3)):
             out.append(Shape(f"shortcut-sampled/{be}/n{nn}", h_shortcut_sampled, dict(n=nn, backend=be), modules=MODS, max_paths=16))
